@@ -100,22 +100,32 @@ def run(ctx):
     PASS = common.macro_value(ctx.repo, 'SNOOPY_FILTER_PASS')
     DROP = common.macro_value(ctx.repo, 'SNOOPY_FILTER_DROP')
     fs = own_reach(cg, F)
-    # the walker: the function that opens /proc/%d/stat
-    W = None
-    for g in fs:
+    # the walker: the function in whose loop /proc/%d/stat is formatted and read.  It may have handed the reading and
+    # the parsing of one stat file to file-local helpers: the rules look at its inlined view (the name comparison
+    # function stays a call: X2 judges it on its own)
+    from engine import inline
+
+    def path_calls(g):
+        out = []
         for c in g.calls():
             if c.get('callee') in ('snprintf', 'sprintf'):
                 lits = [strip(a) for a in c.ch[1:] if a is not None and strip(a).k == 'StringLiteral']
                 if any('/proc/' in (l.get('s') or '') and 'stat' in (l.get('s') or '') for l in lits):
-                    W = g
-                    pathcall = c
+                    out.append(c)
+        return out
+    cmpf = [g for g in fs if g.calls('strcmp') and not path_calls(g)]
+    keep = {g.name for g in cmpf}
+    W = None
+    for g in fs:
+        if g is F or g in cmpf:
+            continue
+        gv = inline.inlined(prog, g, keep=tuple(sorted(keep)))
+        pcs = [c for c in path_calls(gv) if C.in_loop(gv, c)]
+        if pcs and (W is None or len(gv.nodes) < len(W.nodes)):
+            W = gv
+            pathcall = pcs[0]
     if W is None:
-        raise AnalysisBroken('no function formatting "/proc/%d/stat" reachable from the filter')
-    if not C.in_loop(W, pathcall):
-        # the rules below are written for a walker that formats the path inside its own loop; a walker that delegates the
-        # reading of one stat file to a helper is a shape they do not follow: say so instead of misreading the helper
-        raise AnalysisBroken('%s formats the stat path outside a loop (the walk over the ancestors delegates the reading to it): '
-                             'the X1-X3 rules do not follow that split' % W.name)
+        raise AnalysisBroken('no function formatting "/proc/%d/stat" inside a loop reachable from the filter')
     # ---- X1 --------------------------------------------------------------------------------------
     calls = [c for g in fs for c in g.calls() if c.get('callee')]
     names = {c['callee'] for c in calls}
@@ -124,6 +134,12 @@ def run(ctx):
            how='getppid() is called, getpid() is not')
     pidarg = [a for a, d, role in (__import__('engine.fmt', fromlist=['x']).variadic_bindings(pathcall) or []) if role == 'value']
     pv = decl_of(pidarg[0]) if pidarg else None
+    if pv is not None:
+        # in an inlined view the variable may be a helper's parameter, i.e. a plain copy of the walker's pid
+        rid_ = common.alias_root(W, pv['id'])
+        if rid_ != pv['id']:
+            pv = next(({'id': rid_, 'name': x['name'], 'kind': 'var'} for x in W.local_decls() if x['id'] == rid_),
+                      next(({'id': rid_, 'name': x['name'], 'kind': 'parm'} for x in W.params if x['id'] == rid_), pv))
     ok = pv is not None
     detail = 'the path is not formatted from a pid variable'
     if ok:
@@ -134,10 +150,24 @@ def run(ctx):
         oks = bool(sites)
         fr = [c for c in W.calls() if c.get('callee') in ('fread', 'fgets', 'read', 'getline')]
         bufid = (decl_of(arg(fr[0], 0)) or {}).get('id') if fr else None
+        if bufid is not None:
+            bufid = common.alias_root(W, bufid)
         for k, n in sites:
             p = n.parent
-            while p is not None and p.k != 'CallExpr':
+            while p is not None and p.k not in ('CallExpr', 'DeclStmt'):
                 p = p.parent
+            if p is not None and p.k == 'DeclStmt' and p['decls'] and p['decls'][0].get('_param_of'):
+                # &pid bound to the pointer parameter of an inlined helper: the calls that receive that pointer
+                q = p['decls'][0]['id']
+                users = [c for c in W.calls() if any((decl_of(a) or {}).get('id') == q for a in c.ch[1:] if a is not None)]
+                stores = [m for m in W.body.walk() if m.k in ('BinaryOperator', 'CompoundAssignOperator') and
+                          (m.get('op') == '=' or m.k == 'CompoundAssignOperator') and strip(m.ch[0]).k == 'UnaryOperator' and
+                          strip(m.ch[0]).get('op') == '*' and (decl_of(strip(m.ch[0]).ch[0]) or {}).get('id') == q]
+                if stores or len(users) != 1:
+                    oks = False
+                    detail = 'the pid variable is written through a pointer by %s' % render((stores or users or [p])[0])[:50]
+                    continue
+                p = users[0]
             if p is not None and p.get('callee') not in ('sscanf',) and prog.func(p.get('callee'), W.tu) is not None:
                 # a helper that is handed the buffer just read and the address of the pid: held to the same rule
                 okh, whyh = helper_parses_pid(prog, W, p, n, bufid)
@@ -150,18 +180,8 @@ def run(ctx):
                 detail = 'the pid variable is modified by %s' % (render(p) if p is not None else render(n))
                 continue
             src = arg(p, 0)
-            pt = PtrTaint(W, lambda x: False, set())
-            pt.derived = {bufid} if bufid else set()
-            # pointers found in the buffer
-            changed = True
-            while changed:
-                changed = False
-                for m in W.body.walk():
-                    if m.k == 'BinaryOperator' and m['op'] == '=':
-                        d = decl_of(m.ch[0])
-                        if d is not None and d['id'] not in pt.derived and pt.is_derived(m.ch[1]):
-                            pt.derived.add(d['id'])
-                            changed = True
+            # pointers found in the buffer (copies made by declarations included)
+            pt = _derived_closure(W, {bufid} if bufid else set())
             if not pt.is_derived(src):
                 oks = False
                 detail = 'the next pid is parsed from %s, which is not the stat text just read' % render(src)
@@ -208,10 +228,7 @@ def run(ctx):
            nontrivial=False, how='the only pid test that leaves the loop is a comparison with 0')
     # ---- X2 --------------------------------------------------------------------------------------
     # (a) find_string_in_array-like: returns non-zero only through strcmp == 0
-    S = None
-    for g in fs:
-        if g is not W and g.calls('strcmp'):
-            S = g
+    S = cmpf[-1] if cmpf else None
     if S is None:
         S = W if W.calls('strcmp') else None
     if S is None:
